@@ -3,7 +3,7 @@
 From Coq Require Import Ascii String List NArith.
 Import ListNotations.
 Require Import Laze.model.Base Laze.model.Path Laze.model.Hash Laze.model.Ninja Laze.model.Generate
-        Laze.proofs.PathFacts.
+        Laze.proofs.PathFacts Laze.proofs.OutTargets.
 Open Scope list_scope.
 
 (* For one source path (plain relative, with a file name) and one output extension, the object
@@ -14,7 +14,7 @@ Theorem C07_object_path_iff : forall objdir b1 a1 b2 a2 src n h1 h2 rout,
   (forall e, is_absolute (with_extension src e) = false) ->
   (object_path objdir b1 a1 true src h1 rout = object_path objdir b2 a2 true src h2 rout <-> h1 = h2).
 Proof.
-  intros objdir b1 a1 b2 a2 src n h1 h2 rout Hn Hrel. unfold object_path. split.
+  intros objdir b1 a1 b2 a2 src n h1 h2 rout Hn Hrel. unfold object_path, rel_root. rewrite !Hrel. split.
   - intros H. apply path_push_inj in H; [|apply Hrel|apply Hrel].
     apply (with_extension_inj src n) in H; [apply (object_ext_inj _ _ rout); exact H|exact Hn| |];
       unfold object_ext; intros E; destruct (show_dec _); discriminate.
@@ -54,11 +54,17 @@ Section Injective.
 End Injective.
 Print Assumptions C07_share_iff.
 
-(* rules marked shareable: false: the object lives under <objdir>/<builder>/<app>/ *)
+(* rules marked shareable: false: the object lives under <objdir>/<builder>/<app>/ — for EVERY source
+   path: an absolute one is made relative before it is pushed (the code before the fix pushed it as
+   it was, which replaces the whole prefix: one object for all builders and apps) *)
 Theorem C07_nonshareable_private : forall objdir b a src h rout,
   object_path objdir b a false src h rout =
-  path_push (path_push (path_push objdir b) a) (with_extension src rout).
-Proof. reflexivity. Qed.
+  path_push (path_push (path_push objdir b) a) (rel_root (with_extension src rout)) /\
+  is_absolute (rel_root (with_extension src rout)) = false /\
+  exists rest, object_path objdir b a false src h rout = path_push (path_push objdir b) a ++ rest.
+Proof.
+  intros objdir b a src h rout. split; [reflexivity|]. split; [apply rel_root_relative|apply nonshareable_under_builder_app].
+Qed.
 Print Assumptions C07_nonshareable_private.
 
 Theorem C07_decimal_injective : forall n1 n2, show_dec n1 = show_dec n2 -> n1 = n2.
@@ -68,4 +74,7 @@ Print Assumptions C07_decimal_injective.
 Example C07_ex : object_path (S_ "build/objects") (S_ "b") (S_ "a") true (S_ "sub/x.c") 42 (S_ "o") = S_ "build/objects/sub/x.42.o".
 Proof. vm_compute. reflexivity. Qed.
 Example C07_ex_private : object_path (S_ "build/objects") (S_ "b") (S_ "a") false (S_ "sub/x.S") 42 (S_ "o") = S_ "build/objects/b/a/sub/x.o".
+Proof. vm_compute. reflexivity. Qed.
+
+Example C07_ex_private_abs : object_path (S_ "build/objects") (S_ "b") (S_ "a") false (S_ "/abs/./ext//x.S") 42 (S_ "o") = S_ "build/objects/b/a/abs/./ext//x.o".
 Proof. vm_compute. reflexivity. Qed.
